@@ -6,6 +6,7 @@ import (
 	"runtime"
 	"sort"
 	"strings"
+	"sync/atomic"
 )
 
 // Violation is a property violation found by an oracle. Class is a stable tag made of
@@ -65,6 +66,21 @@ type Env struct {
 	Sched     *Sched
 	cleanup   []func()
 	finally   []func()
+	randN     atomic.Uint32 // number of seeded "random" reads so far (see randBytes)
+}
+
+// randBytes stands in for crypto/rand: n seeded bytes, stamped with the number of the
+// read. The library draws identifiers from crypto/rand and relies on two draws never
+// being equal; seeded bytes alone would let the minimiser (which drives choices towards
+// zero) make two upload ids collide, and a trace that fails because of that fails on any
+// tree.
+func (e *Env) randBytes(n int) []byte {
+	b := append([]byte(nil), e.C.Bytes("rand", n)...)
+	k := e.randN.Add(1)
+	for i := 0; i < 4 && i < len(b); i++ {
+		b[len(b)-1-i] ^= byte(k >> (8 * i))
+	}
+	return b
 }
 
 func newEnv(prop, scen, tier string, seed uint64, c *Choices, logOn bool) *Env {
